@@ -261,6 +261,34 @@ def c12(work, tier, seed, replay):
     return client_check(work, tier, seed, replay, "C12")
 
 
+def inform_ext(work, tier, seed):
+    """Extended conformance (./check ext): the INFORM / ACK exchange of nclient4 (Lease.tla with Inform = TRUE). Not part of C13,
+    whose text is about lease acquisition, renewal and release. Returns (mismatch descriptions, trace states, lines, model runs)."""
+    quick = tier == "quick"
+    mcs = [common.require_mc(common.tlc(work, "MC_Lease", cfg=c, workers=4, timeout=900), c) for c in ("MC_Lease4i", "MC_LeaseAll4i")]
+    cases = [json.loads(c)[5:] for c in mcs[1]["cases"]]
+    s = common.tlc(work, "MC_Lease", cfg="MC_LeaseSim4i", workers=1, timeout=1200,
+                   extra=["-simulate", "num=%d" % (300 if quick else 5000), "-depth", "40", "-seed", str(seed)])
+    cases = sorted(set(cases + [json.loads(c)[5:] for c in s["cases"]]))
+    if len(cases) < 100:
+        raise Infra("TLC produced only %d INFORM behaviours" % len(cases))
+    cf = work.path("inform.cases")
+    open(cf, "w").write("\n".join(cases) + "\n")
+    binp = common.build_test(work, "./leasesim/", "lease.test")
+    out = work.path("inform.ndjson")
+    p = common.run([binp, "-test.run", "TestLeaseSim$", "-test.timeout", "50m"], cwd=work.dir, timeout=3300,
+                   env=dict(VH_OUT=out, VH_CASES=cf, VERIF_SEED=str(seed)))
+    if p.returncode != 0:
+        raise Infra("leasesim (INFORM) failed:\n" + p.stdout[-3000:])
+    bad, tstates, tgen, lines = common.tlc_trace(work, "Trace_Lease", out, procs=4, workers=2)
+    viol = []
+    for i in bad:
+        e = json.loads(lines[i - 1])
+        viol.append(("INFORM against server behaviour %s: expected transmissions %s outcome %s (final #%s); the client did: %s" % (
+            json.dumps(e["exp"]["script"])[:300], e["exp"]["txs"], e["exp"]["result"], e["exp"]["fi"], json.dumps(e["obs"]["res"])), [lines[i - 1]]))
+    return viol, tstates, len(lines), mcs
+
+
 @prop("C13")
 def c13(work, tier, seed, replay):
     from .props_v4 import validate, replay_file
